@@ -8,6 +8,7 @@ import (
 	_ "github.com/ozontech/file.d/zz_verifharness/h4kafka"
 	_ "github.com/ozontech/file.d/zz_verifharness/h5http"
 	_ "github.com/ozontech/file.d/zz_verifharness/h6throttle"
+	_ "github.com/ozontech/file.d/zz_verifharness/h7join"
 	_ "github.com/ozontech/file.d/zz_verifharness/h8admit"
 	_ "github.com/ozontech/file.d/zz_verifharness/h3offsets"
 )
